@@ -271,7 +271,7 @@ def run_disk(case, ctx, res):
             data, exp, desc = made
             eol = EOLS[desc["eol"]].encode()
             pos = rng.choice(["start", "inside", "after", "after+snippet", "unparseable", "start+snippet", "after+snippet@boundary",
-                              "after+snippet@boundary", "inside-edge", "after-edge", "start+long", "start+long", "straddle+snippet", "straddle+snippet", "start+char-across-window-end", "inside-edge+1"])
+                              "after+snippet@boundary", "inside-edge", "after-edge", "start+long", "start+long", "straddle+snippet", "straddle+snippet", "start+char-across-window-end", "inside-edge+1", "after-last-snippet-end"])
             desc = dict(desc, pos=pos)
             filler_line = b"x = 'filler filler filler filler filler filler filler'" + eol
             if pos == "start":
@@ -285,6 +285,9 @@ def run_disk(case, ctx, res):
                 exp = {"lic": set(), "cop": set(), "con": set()}
             elif pos == "after+snippet":
                 blob = b"# SPDX-SnippetBegin" + eol + filler_line * 90 + data + b"# SPDX-SnippetEnd" + eol
+            elif pos == "after-last-snippet-end":
+                # a file with a (closed) snippet near its top is read as a whole: also what follows the last SnippetEnd, far down
+                blob = b"# SPDX-SnippetBegin" + eol + filler_line * 2 + b"# SPDX-SnippetEnd" + eol + filler_line * 90 + data
             elif pos in ("inside-edge", "after-edge", "inside-edge+1"):
                 # the tagged text ends exactly with byte 4095 (wholly inside the window) / starts exactly at byte 4096 (wholly after) /
                 # ends one byte later: its very last byte - the LF of a CRLF, say - falls outside, the CR is the window's last byte
